@@ -19,6 +19,16 @@ def gen(args) -> list:
 
     rnd = random.Random(seed)
     evs = []
+    # the built-in ISO patterns are the same whatever culture the thread that first touches them runs under: some workers
+    # (fresh processes, nothing touched yet) switch their current culture before anything else
+    ambient = {1: "fi-FI", 2: "da-DK", 3: "ar-SA", 4: "fa-IR"}.get(seed % 29)       # (seed = 29 * run seed + worker number)
+    if ambient:
+        try:
+            from pyoda_time._compatibility._culture_info import CultureInfo
+
+            CultureInfo.current_culture = CultureInfo(ambient)
+        except Exception:  # noqa: BLE001 - this build has no such culture: run as usual
+            pass
 
     def rnod():
         c = rnd.random()
